@@ -412,6 +412,29 @@ fn float_jobs_f64(quick: bool, deep: bool) -> Vec<Job<f64>> {
             }
         }
     }
+    // clusters of knots a few denormals apart next to ordinary knots (differences and slopes inside
+    // the cluster are extreme, the span and (len-1)/span of the whole axis are ordinary)
+    let tiny = f64::from_bits(1);
+    for c in [0.0f64, 1.0, -2.5] {
+        for k in [2usize, 3, 4, 6] {
+            for (pos, name) in [(0usize, "first"), (1, "middle"), (2, "last")] {
+                // increasing neighbours of c: denormal steps at 0, one-ulp steps elsewhere (for negative c
+                // the bit pattern decreases towards zero)
+                let cluster: Vec<f64> = (0..k).map(|i| if c == 0.0 { tiny * i as f64 } else if c > 0.0 { f64::from_bits(c.to_bits() + i as u64) } else { f64::from_bits(c.to_bits() - i as u64) }).collect();
+                let mut x: Vec<f64> = match pos {
+                    0 => cluster.iter().cloned().chain([c + 1.0, c + 2.0, c + 5.0]).collect(),
+                    1 => [c - 3.0, c - 1.0].into_iter().chain(cluster.iter().cloned()).chain([c + 1.5, c + 4.0]).collect(),
+                    _ => [c - 7.0, c - 2.0, c - 1.0].into_iter().chain(cluster.iter().cloned()).collect(),
+                };
+                x.dedup();
+                if x.windows(2).any(|w| !(w[0] < w[1])) {
+                    continue;
+                }
+                let q = std_queries(&x);
+                jobs.push(Job { name: format!("cluster{k}@{c}:{name}"), x, q, through_interp: true });
+            }
+        }
+    }
     // long axes: uniform, geometric, logarithmic, clustered
     let longs: Vec<(String, Vec<f64>)> = vec![
         ("uniform1e4".into(), (0..10_000).map(|i| i as f64 * 0.37 - 5.0).collect()),
@@ -550,7 +573,7 @@ fn body(ctx: &Ctx) -> (Summary, Meta) {
     narrow!(u16);
     narrow!(i16);
     let meta = Meta {
-        rule: "(a) every (n, initial guess g, rank r of the query, query kind in {interior, at a knot, knot+1ulp, knot-1ulp}) with n up to the bound; (b) every subset axis of the value set, the mixed-magnitude set 1e-300..1e300 and integer sets incl. +-2^30 / +-2^62 with every knot, both neighbours, midpoints, +-0, +-MAX, +-inf as queries; (c) spans 3, 0.3, 7, ... at far offsets with the 6 floats below the last knot; (d) long uniform/geometric/logarithmic/ulp-spaced axes (up to 10^4 knots) and long wide i32/i64 axes; (e) u8 / i8 / u16 / i16 axes that use the whole range of the type (MAX+1 consecutive knots - e.g. 256 for u8, 128 for i8 at several offsets -, one fewer, every 2nd and 3rd value, two and three knots of maximal span; always with representable span and len - 1) with every value of the type as query; every axis as contiguous, strided and reversed view, and through Interp1D/Interp2D::get_index_left_of. Oracle: linear scan. The hook counters classify every lookup by exit x (guess - bracket); non-trivial = lookup that leaves through the bisection.".into(),
+        rule: "(a) every (n, initial guess g, rank r of the query, query kind in {interior, at a knot, knot+1ulp, knot-1ulp}) with n up to the bound; (b) every subset axis of the value set, the mixed-magnitude set 1e-300..1e300 and integer sets incl. +-2^30 / +-2^62 with every knot, both neighbours, midpoints, +-0, +-MAX, +-inf as queries; (b') clusters of 2..6 knots one denormal / one ulp apart at the start, in the middle and at the end of an ordinary axis; (c) spans 3, 0.3, 7, ... at far offsets with the 6 floats below the last knot; (d) long uniform/geometric/logarithmic/ulp-spaced axes (up to 10^4 knots) and long wide i32/i64 axes; (e) u8 / i8 / u16 / i16 axes that use the whole range of the type (MAX+1 consecutive knots - e.g. 256 for u8, 128 for i8 at several offsets -, one fewer, every 2nd and 3rd value, two and three knots of maximal span; always with representable span and len - 1) with every value of the type as query; every axis as contiguous, strided and reversed view, and through Interp1D/Interp2D::get_index_left_of. Oracle: linear scan. The hook counters classify every lookup by exit x (guess - bracket); non-trivial = lookup that leaves through the bisection.".into(),
         bounds: format!("n <= {} for (a); {} f64 + {} f32 + {} i32 + {} i64 axis jobs; tier {}", if deep { 128 } else { 64 }, j64.len(), j32.len(), ji32.len(), ji64.len(), ctx.tier.name()),
         assumptions: vec!["precondition of the statement: finite span and finite (len-1)/span; integer axes with representable span".into()],
         extra: vec![],
